@@ -1164,6 +1164,7 @@ Definition cont_ok sh (p : pers) k c : Prop :=
   | KInsertFix x xl i => pubx sh k x xl i
   | KInsertDone x xl => pubk sh k x /\ lvl (node sh x) = xl
   | KIterNext last => k = key (node sh last) /\ last = it_curr (p_it p) /\ (last < N sh)%nat
+  | KRefresh => k = key (node sh (it_curr (p_it p))) /\ (it_curr (p_it p) < N sh)%nat
   | _ => True
   end.
 
@@ -1280,6 +1281,8 @@ Proof.
   - destruct Hc as [A B]. split; [now apply pubk_ext|]. rewrite <- B. apply lvl_ext. right; right. apply A.
   - destruct Hc as (A & B & C). split; [|split; [exact B|pose proof (e_N _ _ _ _ X); lia]].
     rewrite A. symmetry. now apply (e_key _ _ _ _ X).
+  - destruct Hc as (A & C). split; [|pose proof (e_N _ _ _ _ X); lia].
+    rewrite A. symmetry. now apply (e_key _ _ _ _ X).
 Qed.
 
 Lemma marked_word_ext a l nx : getnext sh a l = (nx, true) -> getnext sh' a l = (nx, true).
@@ -1381,7 +1384,7 @@ Record StepOK sh (p : pers) (cl : cls) (ow : option nat) (lvb : bool) (lw : nat 
           (forall A, mk = Some A -> exists k, r = inl (LSdLoad k A 0 true));
   s_p : pinv sh' p';
   s_l : match r with
-        | inl l' => p' = p /\ linv sh' p l' /\ cls_l l' = cl /\
+        | inl l' => p_nodes p' = p_nodes p /\ linv sh' p' l' /\ cls_l l' = cl /\
                     (forall x, own_l l' = Some x -> ow = Some x \/ (N sh <= x)%nat)
         | inr _ => True
         end;
@@ -1505,7 +1508,7 @@ Lemma sok_mk sh p cl ow lvb lw (rs : nat -> Prop) sh1 sh' p' r ex mk :
   (forall A, mk = Some A -> exists k, r = inl (LSdLoad k A 0 true)) ->
   heap sh' = heap sh1 -> pinv sh1 p' ->
   match r with
-  | inl l' => p' = p /\ linv sh1 p l' /\ cls_l l' = cl /\
+  | inl l' => p_nodes p' = p_nodes p /\ linv sh1 p' l' /\ cls_l l' = cl /\
               (forall x, own_l l' = Some x -> ow = Some x \/ (N sh <= x)%nat)
   | inr _ => True
   end ->
@@ -1538,7 +1541,7 @@ Qed.
 Lemma sok_same sh p cl ow lvb lw (rs : nat -> Prop) sh' p' r :
   HInv sh -> heap sh' = heap sh -> pinv sh p' ->
   match r with
-  | inl l' => p' = p /\ linv sh p l' /\ cls_l l' = cl /\
+  | inl l' => p_nodes p' = p_nodes p /\ linv sh p' l' /\ cls_l l' = cl /\
               (forall x, own_l l' = Some x -> ow = Some x \/ (N sh <= x)%nat)
   | inr _ => True
   end ->
@@ -1567,13 +1570,15 @@ Proof.
   unfold nle, klt. cbn [Nat.eqb]. destruct A2; auto. destruct B2; auto. right; right; lia.
 Qed.
 
-Lemma pinv_cons sh p k x : pinv sh p -> pubk sh k x -> pinv sh (mkPers (p_it p) ((k, x) :: p_nodes p)).
+Lemma pinv_cons sh p k x : pinv sh p -> pubk sh k x -> pinv sh (mkPers (p_it p) ((k, x) :: p_nodes p) (p_cnt p) (p_ivl p)).
 Proof.
   intros [A B] Hx. split; [exact A|]. cbn [p_nodes]. intros k' x' [E|Hi]; [inversion E; now subst|now apply B].
 Qed.
 
-Lemma pinv_it sh p it : pinv sh p -> it_ok sh it -> pinv sh (mkPers it (p_nodes p)).
+Lemma pinv_it' sh p it c v : pinv sh p -> it_ok sh it -> pinv sh (mkPers it (p_nodes p) c v).
 Proof. intros [A B] Hi. split; [exact Hi|exact B]. Qed.
+Lemma pinv_it sh p it : pinv sh p -> it_ok sh it -> pinv sh (set_it p it).
+Proof. apply pinv_it'. Qed.
 
 Lemma nth_upd_list l i d j :
   nth j (upd_list l i d) 0 = nth j l 0 + (if Nat.eqb j i && (i <? length l)%nat then d else 0).
@@ -1605,6 +1610,42 @@ Proof.
   - intros A _ _ R. exact (Hrs A R).
 Qed.
 
+(** the end of Next: either the operation completes, or the Refresh search starts *)
+Lemma next_done_spec sh p it sh' p' r : next_done sh p it = (sh', p', r) ->
+  sh' = sh /\ p' = mkPers it (p_nodes p) (S (p_cnt p)) (p_ivl p) /\
+  ((r = inl (LFP0 (key (node sh (it_curr it))) KRefresh buf0) /\ it_valid it = true /\ it_curr it <> tl_id) \/
+   r = inr (it_result sh it)).
+Proof.
+  unfold next_done.
+  destruct (negb (Nat.eqb (p_ivl p) 0) && Nat.eqb (S (p_cnt p) mod p_ivl p) 0 && it_valid it
+            && negb (Nat.eqb (it_curr it) tl_id)) eqn:C; intros E; injection E as <- <- <-.
+  - split; [reflexivity|]. split; [reflexivity|]. left. split; [reflexivity|].
+    apply andb_true_iff in C. destruct C as [C C2]. apply andb_true_iff in C. destruct C as [_ C1].
+    split; [exact C1|]. apply negb_true_iff, Nat.eqb_neq in C2. exact C2.
+  - split; [reflexivity|]. split; [reflexivity|]. now right.
+Qed.
+
+Lemma next_done_ok sh p it lw (rs : nat -> Prop) sh' p' r :
+  HInv sh -> pinv sh p -> it_ok sh it -> (forall A, rs A -> False) -> (forall j, lw j = 0) ->
+  next_done sh p it = (sh', p', r) ->
+  StepOK sh p COther None false lw rs sh' p' r.
+Proof.
+  intros H Hp Hi Hrs Hlw E.
+  destruct (next_done_spec _ _ _ _ _ _ E) as (-> & -> & [(-> & Hv & Ht)| -> ]).
+  - apply sok_same; try reflexivity; try solve [intros A0 _ _ R0; destruct (Hrs A0 R0)].
+    + exact H.
+    + now apply pinv_it'.
+    + split; [reflexivity|]. split; [|split; [reflexivity|intros y Hy; discriminate]].
+      cbn [linv cont_ok p_it]. split; [apply buf_ok0|]. split; [reflexivity|]. apply gok_lt; [exact H|apply Hi].
+    + right. intros k0. reflexivity.
+    + intros j. cbn [liw_r liw liw_fk]. now rewrite Hlw.
+  - apply sok_same; try reflexivity; try solve [intros A0 _ _ R0; destruct (Hrs A0 R0)].
+    + exact H.
+    + now apply pinv_it'.
+    + right. intros k0. reflexivity.
+    + intros j. cbn [liw_r]. now rewrite Hlw.
+Qed.
+
 Lemma fp_done_ok sh p k c b found (rs : nat -> Prop) sh' p' r :
   HInv sh -> pinv sh p -> buf_ok sh k b -> cont_ok sh p k c -> found = node_eq sh (succ_at b 0) k ->
   (forall A, rs A -> False) ->
@@ -1613,7 +1654,7 @@ Lemma fp_done_ok sh p k c b found (rs : nat -> Prop) sh' p' r :
 Proof.
   intros H Hp Hb Hc Hf Hrs E.
   pose proof Hb as (L1 & L2 & F). destruct (F 0%nat) as (F1 & F2 & F3 & F4 & F5).
-  destruct c as [|x xl|x xl i|x xl| | | |last]; cbn [fp_done cls_fk own_fk live_fk cont_ok] in *.
+  destruct c as [|x xl|x xl i|x xl| | | |last|]; cbn [fp_done cls_fk own_fk live_fk cont_ok] in *.
   - (* KLookup *) injection E as <- <- <-. apply sok_same; auto; try solve [intros A0 _ _ R0; destruct (Hrs A0 R0)].
   - (* KInsert *)
     destruct found eqn:Ef.
@@ -1667,8 +1708,9 @@ Proof.
       apply sok_same; auto; try solve [intros A0 _ _ R0; destruct (Hrs A0 R0)].
       split; [reflexivity|]. split; [|split; [reflexivity|intros y Hy; discriminate]].
       cbn [linv it_curr]. split; [eapply buf_it_ok; exact Hb|]. split; [congruence|exact G2].
-    + injection E as <- <- <-. apply sok_same; auto; try solve [intros A0 _ _ R0; destruct (Hrs A0 R0)].
-      apply pinv_it; [exact Hp|]. eapply buf_it_ok; exact Hb.
+    + eapply next_done_ok; eauto. eapply buf_it_ok; exact Hb.
+  - (* KRefresh *) injection E as <- <- <-. apply sok_same; auto; try solve [intros A0 _ _ R0; destruct (Hrs A0 R0)].
+    apply pinv_it; [exact Hp|]. eapply buf_it_ok; exact Hb.
 Qed.
 
 Ltac inv_step E := injection E as <- <- <-.
@@ -2041,9 +2083,10 @@ Proof.
     + inv_step E. apply sok_same; auto; rs_triv.
       split; [reflexivity|]. split; [|split; [reflexivity|discriminate]]. cbn [linv]. unfold it_ok. cbn [it_curr it_prev].
       repeat split; auto.
-    + inv_step E. apply sok_same; auto; rs_triv.
-      apply pinv_it; [exact Hp|]. unfold it_ok. cbn [it_prev it_curr].
-      split; [exact A2|]. split; [now apply pt_gok|]. split; [exact C|]. split; [now apply (pt_ne_hd sh)|exact We].
+    + eapply (next_done_ok sh p (mkIt (it_curr it) next true)); [exact H|exact Hp| | |intros j; reflexivity|exact E].
+      * unfold it_ok. cbn [it_prev it_curr].
+        split; [exact A2|]. split; [now apply pt_gok|]. split; [exact C|]. split; [now apply (pt_ne_hd sh)|exact We].
+      * intros A0 R0. exact R0.
   - (* LItHelp *)
     destruct Hl as (A & B & W). destruct A as (A1 & A2 & A3 & A4 & A5).
     pose proof (gok_pub_or_hd _ _ A1 A3) as Dp.
@@ -2052,17 +2095,23 @@ Proof.
     + destruct (eff_unlink0 sh (it_prev it) (it_curr it) next H Dp Wp W) as (HI & X & Hpub & AK & NS & NL).
       assert (Hnx : pt sh next).
       { pose proof (word_pt sh (it_curr it) 0 H) as G0. now rewrite W in G0. }
-      inv_step E.
-      eapply (sok_mk _ _ _ _ _ _ _ _ _ _ _ None None);
-        [exact HI|exact X|now left|discriminate|reflexivity| |exact I| | | | |intros A0 _ _ []].
-      * apply pinv_it; [now apply (pinv_ext sh _ None None)|].
-        apply (it_ok_ext sh _ None None H X). unfold it_ok. cbn [it_prev it_curr].
+      assert (Hio : it_ok (set_next sh (it_prev it) 0 (next, false)) (mkIt (it_prev it) next true)).
+      { apply (it_ok_ext sh _ None None H X). unfold it_ok. cbn [it_prev it_curr].
         split; [exact A1|]. split; [now apply pt_gok|]. split; [exact A3|]. split; [now apply (pt_ne_hd sh)|].
-        eapply nle_through; eauto.
-      * intros k0. unfold ak. rewrite AK. rewrite it_result_lv. cbn. lia.
+        eapply nle_through; eauto. }
+      destruct (next_done_spec _ _ _ _ _ _ E) as (-> & -> & Hr).
+      eapply (sok_mk _ _ _ _ _ _ _ _ _ _ _ None None);
+        [exact HI|exact X|now left|discriminate|reflexivity| | | | | | |intros A0 _ _ []].
+      * apply pinv_it'; [now apply (pinv_ext sh _ None None)|exact Hio].
+      * destruct Hr as [(-> & Hv & Hnt)| -> ]; [|exact I].
+        split; [reflexivity|]. split; [|split; [reflexivity|intros y Hy; discriminate]].
+        cbn [linv cont_ok p_it it_curr]. split; [apply buf_ok0|]. split; [reflexivity|].
+        apply gok_lt; [exact HI|apply Hio].
+      * intros k0. unfold ak. rewrite AK. destruct Hr as [(-> & _)| -> ]; [|rewrite it_result_lv]; cbn; lia.
       * cbn. rewrite NS. lia.
       * cbn [with_sts sts st_add_nodes st_nodes st_add_soft]. apply upd_list_length.
-      * intros L j. cbn [with_sts sts st_add_nodes st_nodes st_add_soft set_next liw_r liw].
+      * intros L j. cbn [with_sts sts st_add_nodes st_nodes st_add_soft set_next].
+        assert (Hz : liw_r j r = 0) by (destruct Hr as [(-> & _)| -> ]; reflexivity). rewrite Hz. cbn [liw].
         rewrite (unlink_stats _ _ j L) by apply (h_lvl _ (same_HInv _ _ eq_refl HI)).
         rewrite NL, lvl_set_next. lia.
     + inv_step E. apply sok_same; auto; rs_triv.
@@ -2081,40 +2130,41 @@ Qed.
 
 Lemma begin_ok tid o p sh sh' p' r :
   HInv sh -> pinv sh p -> begin tid o p sh = (sh', p', r) ->
-  sh' = sh /\ p' = p /\
+  sh' = sh /\ pinv sh p' /\
   match r with
-  | inl l' => linv sh p l' /\ (forall k, opw k o = clsw k (cls_l l')) /\ live l' = false /\ own_l l' = None
-  | inr res => res <> RBool true
+  | inl l' => linv sh p' l' /\ (forall k, opw k o = clsw k (cls_l l')) /\ live l' = false /\ own_l l' = None
+  | inr res => res = RBool true -> forall k, opw k o = 0
   end.
 Proof.
   intros H Hp E.
   assert (Hw : forall k k0, (if k =? k0 then 1 else 0) = b2z (k =? k0)) by (intros; now destruct (_ =? _)).
-  destruct o as [k want|k|k|k| |k|]; cbn [begin] in E.
-  - inv_step E. split; [reflexivity|]. split; [reflexivity|]. cbn [linv cls_l live own_l].
+  destruct o as [k want|k|k|k| |k| |k]; cbn [begin] in E.
+  - inv_step E. split; [reflexivity|]. split; [exact Hp|]. cbn [linv cls_l live own_l].
     split; [apply Nat.le_min_r|]. split; [|auto]. intros k0. unfold opw. cbn. destruct (k =? k0); reflexivity.
-  - inv_step E. split; [reflexivity|]. split; [reflexivity|]. cbn [linv cls_l live own_l cls_fk live_fk own_fk cont_ok].
+  - inv_step E. split; [reflexivity|]. split; [exact Hp|]. cbn [linv cls_l live own_l cls_fk live_fk own_fk cont_ok].
     split; [split; [apply buf_ok0|exact I]|]. split; [|auto].
     intros k0. unfold opw. cbn. destruct (k =? k0); reflexivity.
   - destruct (find_node p k) as [n|] eqn:F.
-    + unfold softdelete_start in E. inv_step E. split; [reflexivity|]. split; [reflexivity|].
+    + unfold softdelete_start in E. inv_step E. split; [reflexivity|]. split; [exact Hp|].
       cbn [linv cls_l live own_l].
       assert (Hn : pubk sh k n) by (apply (proj2 Hp k n); now apply find_node_in).
       split; [split; [exact Hn|split; [discriminate|]]|].
       { intros l Hl Hl2. rewrite (h_nl _ H n (or_intror (proj1 Hn))) in Hl2. lia. }
       split; [|auto].
       intros k0. unfold opw. cbn. destruct (k =? k0); reflexivity.
-    + inv_step E. split; [reflexivity|]. split; [reflexivity|]. discriminate.
-  - inv_step E. split; [reflexivity|]. split; [reflexivity|]. cbn [linv cls_l live own_l cls_fk live_fk own_fk cont_ok].
+    + inv_step E. split; [reflexivity|]. split; [exact Hp|]. discriminate.
+  - inv_step E. split; [reflexivity|]. split; [exact Hp|]. cbn [linv cls_l live own_l cls_fk live_fk own_fk cont_ok].
     split; [split; [apply buf_ok0|exact I]|]. split; [|auto]. intros k0. reflexivity.
-  - inv_step E. split; [reflexivity|]. split; [reflexivity|]. cbn [linv cls_l live own_l].
+  - inv_step E. split; [reflexivity|]. split; [exact Hp|]. cbn [linv cls_l live own_l].
     split; [exact I|]. split; [|auto]. intros k0. reflexivity.
-  - inv_step E. split; [reflexivity|]. split; [reflexivity|]. cbn [linv cls_l live own_l cls_fk live_fk own_fk cont_ok].
+  - inv_step E. split; [reflexivity|]. split; [exact Hp|]. cbn [linv cls_l live own_l cls_fk live_fk own_fk cont_ok].
     split; [split; [apply buf_ok0|exact I]|]. split; [|auto]. intros k0. reflexivity.
   - destruct (it_valid (p_it p) && negb (Nat.eqb (it_curr (p_it p)) tl_id)) eqn:V.
-    + inv_step E. split; [reflexivity|]. split; [reflexivity|]. cbn [linv cls_l live own_l].
+    + inv_step E. split; [reflexivity|]. split; [exact Hp|]. cbn [linv cls_l live own_l].
       apply andb_true_iff in V. destruct V as [_ V]. apply negb_true_iff, Nat.eqb_neq in V.
       split; [split; [apply Hp|split; [reflexivity|exact V]]|]. split; [|auto]. intros k0. reflexivity.
-    + inv_step E. split; [reflexivity|]. split; [reflexivity|]. discriminate.
+    + inv_step E. split; [reflexivity|]. split; [exact Hp|]. discriminate.
+  - inv_step E. split; [reflexivity|]. split; [split; [apply Hp|apply Hp]|]. intros _ k0. reflexivity.
 Qed.
 
 (** * The global invariant *)
@@ -2347,7 +2397,7 @@ Proof.
     apply (Inv_upd progs y i t _ s' ex mk HI Ht S1 S2).
     + rewrite Hc. exact S2'.
     + destruct r as [l'|res]; cbn [finish_seg].
-      * destruct S4 as (-> & L' & C' & O'). split; [exact S3|]. split; [|exact L'].
+      * destruct S4 as (_ & L' & C' & O'). split; [exact S3|]. split; [|exact L'].
         unfold tal. cbn [cur todo done]. exists pre, o. rewrite C'. auto.
       * split; [exact S3|]. split; [|exact I]. unfold tal. cbn [cur todo done].
         exists (pre ++ [o]). rewrite <- app_assoc. cbn [app]. split; [exact Epre|]. rewrite !app_length. cbn. lia.
@@ -2368,15 +2418,15 @@ Proof.
   - destruct (todo t) as [|o rest] eqn:Htd; [exact HI|]. cbn [blocked_begin].
     destruct (begin i o (pers_of t) (sh y)) as [[s' p'] r] eqn:Eb.
     pose proof Eb as Eb0.
-    destruct (begin_ok i o (pers_of t) (sh y) s' p' r (i_h _ _ HI) Hp Eb) as (-> & -> & Hr).
+    destruct (begin_ok i o (pers_of t) (sh y) s' p' r (i_h _ _ HI) Hp Eb) as (-> & Hp' & Hr).
     destruct Hal as (pre & Epre & Lpre).
     apply (Inv_upd progs y i t _ (sh y) None None HI Ht (i_h _ _ HI)).
     + now apply same_ext.
     + now left.
     + destruct r as [l'|res]; cbn [finish_seg].
-      * destruct Hr as (L' & C' & _). split; [exact Hp|]. split; [|exact L'].
+      * destruct Hr as (L' & C' & _). split; [exact Hp'|]. split; [|exact L'].
         unfold tal. cbn [cur todo done]. exists pre, o. auto.
-      * split; [exact Hp|]. split; [|exact I]. unfold tal. cbn [cur todo done].
+      * split; [exact Hp'|]. split; [|exact I]. unfold tal. cbn [cur todo done].
         exists (pre ++ [o]). rewrite <- app_assoc. cbn [app]. split; [exact Epre|]. rewrite !app_length. cbn. lia.
     + destruct r as [l'|res]; cbn [finish_seg cur own]; [|discriminate].
       destruct Hr as (_ & _ & _ & O'). rewrite O'. discriminate.
@@ -2384,7 +2434,7 @@ Proof.
       destruct r as [l'|res]; cbn [finish_seg cur done].
       * destruct Hr as (_ & _ & V & _). rewrite V. cbn [b2z]. lia.
       * rewrite Epre, (cnt_snoc k pre o rest (done t) res Lpre).
-        destruct res as [[|]|]; try lia. exfalso. now apply Hr.
+        destruct res as [[|]|]; try lia. rewrite (Hr eq_refl k). lia.
     + lia.
     + reflexivity.
     + intros _ j. rewrite Hc. cbn [liwo]. destruct r as [l'|res]; cbn [finish_seg cur liwo]; [|lia].
@@ -2556,8 +2606,10 @@ Proof.
     destruct l as [| | k c b| k c b j prev| k c b j prev curr| k c b j prev curr next| | | | | | | | |it|it next];
       try contradiction; try (destruct c; try contradiction); cbn [step linv cont_ok] in *.
     + (* LFP0 *) discriminate.
+    + discriminate.
     + (* LFP1 *) discriminate.
-    + (* LFP2 *)
+    + discriminate.
+    + (* LFP2, KIterNext *)
       destruct Hl as (A & (B1 & B2 & B3) & C & D & F & G & I0).
       destruct (getnext (sh y) curr j) as [next deleted]. destruct deleted; [discriminate|].
       destruct (node_lt (sh y) curr k) eqn:Lt; [discriminate|].
@@ -2565,21 +2617,30 @@ Proof.
       cbn [fp_done] in Es. destruct (buf_set0 (sh y) k b prev curr A) as [Ep Es0].
       rewrite Ep, Es0 in Es.
       destruct (node_eq (sh y) curr k && Nat.eqb last curr); [discriminate|].
-      injection Es as <- <- _. cbn [p_it it_curr].
+      destruct (next_done_spec _ _ _ _ _ _ Es) as (-> & -> & _). cbn [p_it it_curr].
       destruct (node_nlt_cases _ _ _ Lt) as [_ [T|T]]; [now left|right]. rewrite <- B2, <- B1. exact T.
+    + (* LFP2, KRefresh *)
+      destruct Hl as (A & (B1 & B2) & C & D & F & G & I0).
+      destruct (getnext (sh y) curr j) as [next deleted]. destruct deleted; [discriminate|].
+      destruct (node_lt (sh y) curr k) eqn:Lt; [discriminate|].
+      destruct j as [|j]; [|discriminate].
+      cbn [fp_done] in Es. destruct (buf_set0 (sh y) k b prev curr A) as [Ep Es0].
+      rewrite Ep, Es0 in Es. injection Es as <- <- _. cbn [set_it p_it it_curr].
+      destruct (node_nlt_cases _ _ _ Lt) as [_ [T|T]]; [now left|right]. rewrite <- B1. exact T.
     + (* LFPH *)
       destruct (dcas (sh y) prev j curr next false) as [s1 ok]. destruct ok; discriminate.
+    + destruct (dcas (sh y) prev j curr next false) as [s1 ok]. destruct ok; discriminate.
     + (* LItNext *)
       destruct Hl as (A & B & C).
       destruct (getnext (sh y) (it_curr it) 0) as [next deleted] eqn:W. destruct deleted; [discriminate|].
-      injection Es as <- <- _. cbn [p_it it_curr].
+      destruct (next_done_spec _ _ _ _ _ _ Es) as (-> & -> & _). cbn [p_it it_curr].
       pose proof (h_edge _ H (it_curr it) 0%nat) as We. rewrite W in We. cbn [fst] in We.
       rewrite <- B. destruct We as [E|[E|E]]; [congruence|now left|right]. unfold klt in E. cbn in E. lia.
     + (* LItHelp *)
       destruct Hl as (A & B & W).
       destruct (dcas (sh y) (it_prev it) 0 (it_curr it) next false) as [s1 ok] eqn:Ed.
       destruct (dcas_spec _ _ _ _ _ _ _ _ Ed) as [(-> & Wp & ->)|(-> & ->)]; [|discriminate].
-      injection Es as <- <- _. cbn [p_it it_curr].
+      destruct (next_done_spec _ _ _ _ _ _ Es) as (-> & -> & _). cbn [p_it it_curr].
       pose proof (h_edge _ H (it_curr it) 0%nat) as We. rewrite W in We. cbn [fst] in We.
       rewrite <- B. destruct We as [E|[E|E]]; [congruence|now left|right].
       rewrite node_with_sts, key_set_next. unfold klt in E. cbn in E. lia.
@@ -3294,7 +3355,7 @@ Lemma fp_done2 sh p k c b found sh' p' r (l : local) :
   fp_done sh p k c b found = (sh', p', r) -> StepOK2 sh l sh' r.
 Proof.
   intros H L Hb Hc Hb2 Hc2 Eo Ei Ed E.
-  destruct c as [|x xl|x xl i|x xl| | | |last]; cbn [fp_done own_fk insi_fk cont_ok cont2] in *.
+  destruct c as [|x xl|x xl i|x xl| | | |last|]; cbn [fp_done own_fk insi_fk cont_ok cont2] in *.
   - injection E as <- <- <-. apply sok2_same; auto; rewrite ?Eo, ?Ei, ?Ed; try discriminate; auto; try (intros; contradiction).
   - destruct found.
     + injection E as <- <- <-. apply sok2_same; auto; rewrite ?Eo, ?Ei, ?Ed; try discriminate; auto; try (intros; contradiction).
@@ -3343,7 +3404,10 @@ Proof.
   - injection E as <- <- <-. apply sok2_same; auto; rewrite ?Eo, ?Ei, ?Ed; try discriminate; auto; try (intros; contradiction).
   - destruct (found && Nat.eqb last (succ_at b 0)).
     + injection E as <- <- <-. apply sok2_same; auto; rewrite ?Eo, ?Ei, ?Ed; try discriminate; auto; try (intros; contradiction); try exact I.
-    + injection E as <- <- <-. apply sok2_same; auto; rewrite ?Eo, ?Ei, ?Ed; try discriminate; auto; try (intros; contradiction).
+    + destruct (next_done_spec _ _ _ _ _ _ E) as (-> & -> & [(-> & _)| -> ]);
+        apply sok2_same; auto; rewrite ?Eo, ?Ei, ?Ed; try discriminate; auto; try (intros; contradiction);
+        try (cbn [linv2 cont2]; split; [apply bufr0|exact I]).
+  - injection E as <- <- <-. apply sok2_same; auto; rewrite ?Eo, ?Ei, ?Ed; try discriminate; auto; try (intros; contradiction).
 Qed.
 
 Lemma alloc2 sh (l : local) k xl lv st :
@@ -3656,7 +3720,9 @@ Proof.
   - (* LItFirst *)
     inv_step E. apply sok2_same; fin2.
   - (* LItNext *)
-    destruct (getnext sh (it_curr it) 0) as [next deleted]. destruct deleted; inv_step E; apply sok2_same; fin2.
+    destruct (getnext sh (it_curr it) 0) as [next deleted]. destruct deleted; [inv_step E; apply sok2_same; fin2|].
+    destruct (next_done_spec _ _ _ _ _ _ E) as (-> & -> & [(-> & _)| -> ]); apply sok2_same; fin2.
+    cbn [linv2 cont2]. split; [apply bufr0|exact I].
   - (* LItHelp *)
     destruct Hl as (A & B & W). destruct A as (A1 & A2 & A3 & A4 & A5).
     pose proof (gok_pub_or_hd _ _ A1 A3) as Dp.
@@ -3667,7 +3733,9 @@ Proof.
       assert (Hpc : it_prev it = hd_id \/ onl sh 0 (it_prev it)).
       { destruct Dp as [Dp|[_ [Dp|Dp]]]; [now left|now right|]. unfold marked in Dp. rewrite Wp in Dp. discriminate. }
       destruct (leff_unlink sh _ 0 _ next H L Wp W R1 R2 Hpc) as [L1 X1].
-      inv_step E. apply (sok2_mk sh _ _ _ _ None None None L1 X1); [reflexivity|..]; fin2.
+      destruct (next_done_spec _ _ _ _ _ _ E) as (-> & -> & [(-> & _)| -> ]);
+        apply (sok2_mk sh _ _ _ _ None None None L1 X1); [reflexivity|..]; fin2.
+      cbn [linv2 cont2]. split; [apply bufr0|exact I].
     + inv_step E. apply sok2_same; fin2. cbn [linv2 cont2]. split; [apply bufr0|exact I].
 Qed.
 
@@ -3859,8 +3927,8 @@ Proof.
   - destruct (todo t) as [|o rest] eqn:Htd; [exact HJ|]. cbn [blocked_begin].
     destruct (begin i o (pers_of t) (sh y)) as [[s' p'] r] eqn:Eb.
     pose proof Eb as Eb0.
-    destruct (begin_ok i o (pers_of t) (sh y) s' p' r (i_h _ _ HI) Hp Eb) as (-> & -> & Hr).
-    set (t' := finish_seg local pers op result t rest (pers_of t) r).
+    destruct (begin_ok i o (pers_of t) (sh y) s' p' r (i_h _ _ HI) Hp Eb) as (-> & _ & Hr).
+    set (t' := finish_seg local pers op result t rest p' r).
     assert (Hnew : nth_error (upd_th i t' (ths y)) i = Some t') by (now apply nth_upd_same).
     assert (Hoth : forall j, j <> i -> nth_error (upd_th i t' (ths y)) j = nth_error (ths y) j).
     { intros j Hj. apply nth_upd_other. congruence. }
@@ -4327,7 +4395,7 @@ Proof.
     intros l A Hl1 Ho' Hm'. cbn [sh ths] in *.
     assert (Hthr : forall loc', r = inl loc' -> sweepl s' l A loc' -> Cov (mkSys s' (upd_th i t' (ths y))) l A).
     { intros loc' Er Hs. right. exists i, t', loc'. cbn [sh ths]. rewrite Hct, Er. auto. }
-    assert (Hlin : forall loc', r = inl loc' -> linv s' (pers_of t) loc').
+    assert (Hlin : forall loc', r = inl loc' -> linv s' p' loc').
     { intros loc' Er. rewrite Er in S4. apply S4. }
     (* a node of A's key marked at level 0 by this step: the stepping thread sweeps *)
     assert (Hdel : forall B, mk = Some B -> key (node s' B) = key (node s' A) ->
@@ -4364,7 +4432,7 @@ Proof.
         right. exists i0, t0, loc0. cbn [sh ths]. rewrite Hoth by exact Hi0. auto.
   - destruct (todo t) as [|o rest] eqn:Htd; [exact HK|]. cbn [blocked_begin].
     destruct (begin i o (pers_of t) (sh y)) as [[s' p'] r] eqn:Eb.
-    destruct (begin_ok i o (pers_of t) (sh y) s' p' r H Hp Eb) as (-> & -> & Hr).
+    destruct (begin_ok i o (pers_of t) (sh y) s' p' r H Hp Eb) as (-> & _ & Hr).
     intros l A Hl1 Ho Hm. cbn [sh ths] in *.
     destruct (HK l A Hl1 Ho Hm) as [G|(i0 & t0 & loc0 & Hn0 & Hc0 & Hs0)]; [now left|].
     right. exists i0, t0, loc0. cbn [sh ths].
